@@ -207,6 +207,36 @@ def g_st2(r):
                      "^st力量-1&&'a'", "^st力量-1>0?'a':'b'", "^st力量-0||'x'", "^st力量-1 ?? 2", "^st力量-1-1", "^st力量+'a'", "^sthp-1&&[1] 敏捷+1"])
 
 
+# fixed regression corpus: edge cases of the model and the inputs on which the real code panics today (model must panic too)
+EDGE = [
+    "func g() { d }; g()", "func g() { 2d }; g()", "&x = 2d; x", "&x = d优势; x", "&x = 3dk2; x + x", "d + 2d", "x = 3; (x)d",
+    b"x = '\xff\xe5\x8aab\xe5\x8a\x9b'; [x[0], x[1], x[0:2], x[-1], x[2:], x[:-1]]", "x = 'a力b量c'; [x[1], x[-2], x[1:4], x[3:1], x[-9:9]]",
+    "x = 'abc'; x[3]", "x = 'abc'; x[-4]", "x = ''; x[0]", "x = 'abc'; x['a']", "x = 5; x[0]", "x = null; x[0:1]", "x = {'a':1}; x[0:1]",
+    "x = [1]; toStr([x, x])", "x = [1]; x[0] = x; toStr(x)", "x = {'a':[1]}; toStr(x)", "x = {'a':1}; x.a = x; toStr(x)", "x = {}; [toStr(x), repr('s'), toStr('s')]",
+    "x = [1]; x[0] = x; x == x", "x = [1,[2]]; y = [1,[2]]; [x == y, x != y, x == [1,[3]], {'a':1} == {'a':1}, {'a':1} == {'b':1}, {'a':1} == {'a':1,'b':2}]",
+    "func g() { 1 }; func h() { 1 }; [g == g, g == h, toStr == toStr, toStr == repr, [1].len == [2].len, this == this, null == null, &x == &y]",
+    "&x = 1; &y = 1; &z = 2; [&x == &y, &x == &z, toBool(&x)]", "x = 5; x(1); 2", "x = 5; x(1)", "[1,2](3)", "null()",
+    "[0..(0-9223372036854775807-1)]", "[(0-2)..9223372036854775807]", "[9223372036854775807..(0-9223372036854775807-1)]", "[1..512]", "[1..513]", "[512..1]",
+    "[1 ? 2, 3]", "[0 ? 2, 3]", "[1 ? 2, 3 ? 4, 5]", "^st力量-1&&'a'", "^st力量-1>0?'a':'b'",
+    "9223372036854775807 + 1", "(0-9223372036854775807-1) / (0-1)", "(0-9223372036854775807-1) % (0-1)", "0 - (0-9223372036854775807-1)", "-(0-9223372036854775807-1)",
+    "abs(0-9223372036854775807-1)", "3037000500 * 3037000500", "7 / (0-2)", "(0-7) / 2", "(0-7) % 3", "7 % (0-3)", "(0-5) & 3", "(0-5) | 3", "2 ^ 53", "2 ^ 52 + 0", "(0-2) ^ 3", "(0-1) ^ 5", "1 ^ (0-5)", "2 ^ (0-1)",
+    "x = [1,2,3]; x * 171", "x = [1,2,3]; x * 170", "x = []; x * 99999999999", "x = [1]; x * 9223372036854775807", "x = [1,2]; y = x + x; y[0] = 9; [x, y]",
+    "x = [1,2,3,4]; x[1:3] = x; x", "x = [1,2,3,4]; x[3:1] = [9]; x", "x = [1,2,3]; x[:] = []; x", "x = [1]; x.push(x); x.len()", "x = [3,1,2]; x.pop(); x.shift(); x.push(7); x",
+    "x = [1,2,3]; y = x.shuffle(); [x == y, x.len()]", "x = [1,2,3,4,5]; [x.rand(), x.randSize(3), x]", "[].rand()", "[1,2].randSize(3)", "[1,2].randSize(0-1)", "[5,'a',null,[1],7].sum()",
+    "[9007199254740992, 1].sum()", "[9007199254740993].kh()", "{'a':1}.keys()", "{'a':1}.items()", "{}.values()", "{'a':1,'b':2}.len()", "x = {'len':5}; [x.len, x.keys]",
+    "x = {'__proto__':{'v':1,'__proto__':{'u':2}}}; [x.v, x.u, x.t]", "x = {}; x.__proto__ = 5; x.y", "dir(&x)", "dir(1)", "dir('s')", "&x = 1; x.compute", "&x = 1; &x.compute",
+    "toInt('  1')", "toInt('1_0')", "toInt('-')", "toInt('+')", "toInt('007')", "toInt('-9223372036854775808')", "toInt('9223372036854775808')", "toInt(null)", "toStr()", "toStr(1,2)", "store('q', 5); q", "store(5, 5)",
+    "load('x')", "x = 7; load('x')", "&x = 8; [load('x'), loadRaw('x')]", "load(5)", "typeId(this)", "typeId(toStr)", "typeId([1].len)", "toStr(this)", "repr(this)", "toBool(this)", "this.x", "this.x = 3; this.x + x",
+    "x = 1; this", "`{this}`", "`{% 1; 2 %}`", "`{% %}x`", "`a{}`", "x = 1; `{x}{x}{% x = 2 %}{x}`", "if 1 { 5 }", "if 0 { 5 }", "x = 0; if x { 1 } else if 1 { 2 }; x",
+    "i = 0; while i < 5 { i = i + 1; if i == 2 { continue }; if i == 4 { break } }; i", "i = 0; while i < 400 { i = i + 1 }; i", "i = 0; while i < 1200 { i = i + 1 }; i",
+    "func g(u, u) { u }; g(1, 2)", "func g(u) { u }; g()", "func g() { return; 5 }; g()", "func g() { g }; g()()", "func g(u) { if u < 1 { return 0 }; return u + g(u - 1) }; g(20)",
+    "func g() { x = 1 }; g(); x", "x = 1; func g() { x = x + 1; x }; [g(), x]", "func g() { this.v = 1; h() }; func h() { v }; g()", "func g() { &t = 5; t }; g()",
+    "&x = y + 1; func g() { y = 10; x }; func h() { y = 20; g() }; y = 1; [x, g(), h()]", "&x = (n = n + 1); n = 0; x; x; &x.n",
+    "&x = this.n + 1; &x.n = 5; x", "&x = x; x", "&x = null; y = 3; func g() { x ?? y }; g()",
+    "2d6k1", "2d6kh3", "4d6kl2", "4d6dh1", "4d6dl1", "4d6dl9", "3d6min5", "3d6max2", "(0)d6", "2d(0)", "2d6k(0)", "1d1d1d1", "b0", "p0", "b3", "p2", "3a10", "3a10m6", "3a8k5", "3a8q3", "1a2", "1a1", "0a5", "3c8", "3c8m6", "1c1", "f",
+    "9999999d1", "9223372036854775807d1", "b9223372036854775807",
+]
+
 FAMILIES = [("arith", g_arith), ("control", g_control), ("template", g_template), ("container", g_container), ("method", g_method),
             ("builtin", g_builtin), ("func", g_func), ("computed", g_computed), ("dice", g_dice), ("st", g_st), ("st2", g_st2)]
 
@@ -258,6 +288,13 @@ def make_inputs(rnd, n, corpus):
             inp["oplimit"] = rnd.choice([150, 1000, 5000, 30000])   # unbounded recursion without a budget kills the process
         inputs.append(inp)
         kinds.append(kind)
+    for src in EDGE:
+        for cfg in ({}, {"oplimit": 1000}, {"mode": -1, "div0": True}):
+            if cfg.get("oplimit") is None and (b"&x = x" in k2cases.mk_input(src)["src"]):
+                continue    # unbounded recursion without a budget kills the process
+            inp = k2cases.mk_input(src, st=True, hi=rnd.getrandbits(64), lo=rnd.getrandbits(64), **cfg)
+            inputs.append(inp)
+            kinds.append("edge corpus")
     return inputs, kinds
 
 
